@@ -50,6 +50,13 @@ Twice(inner) == WithC(inner, SelQ(<<I(A)>>, C, InSub(A, SelQ(<<I(A)>>, Table(<<"
 \* a chain: d reads c
 Chain(inner, mid, outer) == [outer EXCEPT !.with = <<[name |-> "c", q |-> inner], [name |-> "d", q |-> mid]>>]
 D == Table(<<"d">>, "")
+\* ... the first (evaluating) reference under an alias, the second through <-
+XA == ColP(<<"x", "a">>)
+TwiceAliased(inner) == WithC(inner, SelQ(<<I(XA)>>, Table(<<"c">>, "x"), InSub(XA, SelQ(<<I(A)>>, Table(<<"<-", "c">>, ""), CmpE("=", G, LN(1))))))
+\* ... and a chain whose middle query reads c under an alias while the outer query reads c again
+ChainAliased(inner) ==
+    [SelQ(<<I(A)>>, D, InSub(A, SelQ(<<I(A)>>, Table(<<"<-", "c">>, ""), None))) EXCEPT !.with =
+        <<[name |-> "c", q |-> inner], [name |-> "d", q |-> SelQ(<<I(ColP(<<"y", "a">>)), I(ColP(<<"y", "g">>))>>, Table(<<"c">>, "y"), None)]>>]
 \* a CTE read through a path selector: c[0].n
 PathFrom == [k |-> "sel", as |-> "", sel |-> <<[fn |-> "", steps |-> <<[k |-> "key", name |-> "c"], [k |-> "idx", keep |-> FALSE, dims |-> <<[k |-> "at", i |-> 0]>>], [k |-> "key", name |-> "n"]>>]>>]
 PathQ(w) == WithC(SelQ(<<I(A), I(Col("n"))>>, T, w), SelQ(<<Star>>, PathFrom, None))
@@ -75,6 +82,8 @@ Cases ==
   \cup {[fam |-> "chain", q |-> Chain(Inners[i], m, o)] : i \in {1, 2, 6}, m \in {SelQ(<<I(A), I(G)>>, C, CmpE("<=", G, LN(0))), SelQ(<<Star>>, C, None)},
                                                          o \in {SelQ(<<Star>>, D, None), SelQ(<<Item(Agg("count", <<>>), "k")>>, D, None), SelQ(<<I(A)>>, D, CmpE(">", A, LN(1)))}}
   \cup {[fam |-> "twice", q |-> Twice(Inners[i])] : i \in {1, 2, 6, 7}}
+  \cup {[fam |-> "twice", q |-> TwiceAliased(Inners[i])] : i \in {1, 2, 6, 7}}
+  \cup {[fam |-> "chain", q |-> ChainAliased(Inners[i])] : i \in {1, 2, 6}}
   \cup {[fam |-> "path", q |-> PathQ(w)] : w \in {None, CmpE(">", A, LN(1)), CmpE(">", A, LN(100))}}
   \cup {[fam |-> "sub", q |-> s] : s \in Subs}
 
